@@ -91,11 +91,13 @@ def run(F, chk):
             rb.ok(key, ss.where(ins[0]), "streams.insert only on a streams.len() < peer max_concurrent_streams edge")
         else:
             rb.violation(key, ss.where(ins[0]), "a stream towards the peer can be opened without passing the streams.len() < settings_max_concurrent_streams edge")
-    writers = set()
+    okw = {"create_stream", "new_stream_id", "__test_set_last_stream_id", "new_server", "new_client", "new"}
+    wpaths = {}
     for b in F.grep("f|%s|ConnectionH2|last_stream_id" % H2):
         if writes_of(b, H2, "last_stream_id"):
-            writers.add(b.path.split("::")[-1])
-    okw = {"create_stream", "new_stream_id", "__test_set_last_stream_id", "new_server", "new_client", "new"}
+            wpaths[b.root if "{closure" in b.path else b.path] = {"last_stream_id"}
+    wpaths, _ = lib.fold_private_writers(F, wpaths, lambda fn: fn.split("::")[-1] in okw)
+    writers = {w.split("::")[-1] for w in wpaths}
     if writers and writers <= okw:
         rb.ok("ConnectionH2.last_stream_id writers", "", "%s" % sorted(writers), nontrivial=False)
     else:
